@@ -100,6 +100,11 @@ func (h *Hist) randPath() string {
 		depth = 4
 	}
 	var parts []string
+	// half of the time extend a directory that already exists, so that siblings accumulate
+	if h.obs != nil && len(h.obs.Dirs) > 0 && h.r.chance(1, 2) {
+		d := h.obs.Dirs[h.r.intn(len(h.obs.Dirs))]
+		return d + "/" + h.comp()
+	}
 	for i := 0; i < depth; i++ {
 		parts = append(parts, h.comp())
 	}
@@ -673,8 +678,19 @@ func runHistCase(ctx *Ctx, cfg *HistCfg, r *rng, idx int) (Case, []string, []Fin
 	if cfg.Names != nil {
 		h.names = cfg.Names(r)
 	} else {
-		// a per-case subset keeps collisions (same name as file and directory, siblings) frequent
-		n := 4 + r.intn(5)
+		// a per-case subset keeps collisions (same name as file and directory, siblings) frequent;
+		// one or two "families" X, X0, X2, X-old, X.x, X_old, "X e", aX put names that extend a
+		// directory's name next to it (the byte after X sorts below or above '/')
+		nf := 1 + r.intn(2)
+		for f := 0; f < nf; f++ {
+			base := r.pick([]string{"d", "lib", "test", "a", "src", "p(q)", "x+y", "ü"})
+			fam := []string{base, base + "0", base + "2", base + "-old", base + ".x", base + "_old", base + " e", "a" + base, base + "s"}
+			h.names = append(h.names, base)
+			for i := 0; i < 3+r.intn(3); i++ {
+				h.names = append(h.names, fam[r.intn(len(fam))])
+			}
+		}
+		n := 1 + r.intn(4)
 		for i := 0; i < n; i++ {
 			h.names = append(h.names, defaultComponents[r.intn(len(defaultComponents))])
 		}
